@@ -1,3 +1,99 @@
-// Kani contracts for /repo/src/value/kind.rs (child module via cfg(kani) hook).
+// Kani contracts for /repo/src/value/kind.rs + kind/merge.rs + kind/comparison.rs — the scalar
+// fragment of the type abstraction (all 2^8 x 2^8 pairs of scalar kinds, loop-free = complete).
 #![allow(warnings)]
 use super::*;
+use ordered_float::NotNan;
+
+fn mk(bits: u8) -> Kind {
+    Kind {
+        bytes: if bits & 1 != 0 { Some(()) } else { None },
+        integer: if bits & 2 != 0 { Some(()) } else { None },
+        float: if bits & 4 != 0 { Some(()) } else { None },
+        boolean: if bits & 8 != 0 { Some(()) } else { None },
+        timestamp: if bits & 16 != 0 { Some(()) } else { None },
+        regex: if bits & 32 != 0 { Some(()) } else { None },
+        null: if bits & 64 != 0 { Some(()) } else { None },
+        undefined: if bits & 128 != 0 { Some(()) } else { None },
+        array: None,
+        object: None,
+    }
+}
+fn bits_of(k: &Kind) -> u8 {
+    // the flags themselves (`contains_*` treats the empty "never" kind as containing everything)
+    (k.bytes.is_some() as u8)
+        | (k.integer.is_some() as u8) << 1
+        | (k.float.is_some() as u8) << 2
+        | (k.boolean.is_some() as u8) << 3
+        | (k.timestamp.is_some() as u8) << 4
+        | (k.regex.is_some() as u8) << 5
+        | (k.null.is_some() as u8) << 6
+        | (k.undefined.is_some() as u8) << 7
+}
+
+// @unit tier=q prop=C19 fn=Kind::union,Kind::merge_keep,Kind::merge
+#[kani::proof]
+#[kani::unwind(2)]
+fn k_kind_union_scalar() {
+    let a: u8 = kani::any();
+    let b: u8 = kani::any();
+    let ka = mk(a);
+    let u = ka.union(mk(b));
+    assert!(bits_of(&u) == (a | b), "C19.union.scalar: the union of two scalar kinds contains exactly the members of both operands");
+    assert!(u.array.is_none() && u.object.is_none(), "C19.union.no_collections: no collection kind appears from nowhere");
+    let mut m = mk(a);
+    m.merge(mk(b), merge::Strategy { collisions: merge::CollisionStrategy::Union });
+    assert!(bits_of(&m) == (a | b), "C19.merge.scalar_union: merging scalar kinds (union strategy) contains every member of both operands");
+    let mut m2 = mk(a);
+    m2.merge(mk(b), merge::Strategy { collisions: merge::CollisionStrategy::Overwrite });
+    assert!(bits_of(&m2) == (a | b), "C19.merge.scalar_overwrite: merging scalar kinds (overwrite strategy) contains every member of both operands");
+    core::mem::forget(u);
+    core::mem::forget(m);
+    core::mem::forget(m2);
+    core::mem::forget(ka);
+}
+
+// @unit tier=q prop=C19 fn=Kind::is_superset,Kind::intersects
+#[kani::proof]
+#[kani::unwind(2)]
+fn k_kind_superset_scalar() {
+    let a: u8 = kani::any();
+    let b: u8 = kani::any();
+    let ka = mk(a);
+    let kb = mk(b);
+    let r = ka.is_superset(&kb);
+    assert!(r.is_ok() == ((b & !a) == 0), "C19.is_superset.scalar: the subtype test agrees with membership: a is a superset of b iff every member kind of b is one of a");
+    let i = ka.intersects(&kb);
+    assert!(i == ((a & b) != 0 || a == 0 || b == 0), "C19.intersects.scalar: two scalar kinds intersect iff they share a member (never intersects everything)");
+    core::mem::forget(r);
+    core::mem::forget(ka);
+    core::mem::forget(kb);
+}
+
+// @unit tier=q prop=C19 float=1 fn=Kind::from(&Value)
+#[kani::proof]
+#[kani::unwind(2)]
+#[kani::stub(regex::Regex::new, crate::compiler::kani_support::stub_regex_new)]
+fn k_kind_of_scalar_value() {
+    let i: i64 = kani::any();
+    let b: bool = kani::any();
+    let f: f64 = kani::any();
+    kani::assume(!f.is_nan());
+    let k1 = Kind::from(&Value::Integer(i));
+    assert!(bits_of(&k1) == 2 && k1.array.is_none() && k1.object.is_none(), "C19.kind_of.integer: the kind of an integer value is exactly integer");
+    let k2 = Kind::from(&Value::Boolean(b));
+    assert!(bits_of(&k2) == 8, "C19.kind_of.boolean: the kind of a boolean value is exactly boolean");
+    let k3 = Kind::from(&Value::Float(NotNan::new(f).unwrap()));
+    assert!(bits_of(&k3) == 4, "C19.kind_of.float: the kind of a float value is exactly float");
+    let k4 = Kind::from(&Value::Null);
+    assert!(bits_of(&k4) == 64, "C19.kind_of.null: the kind of null is exactly null");
+    core::mem::forget(k1);
+    core::mem::forget(k2);
+    core::mem::forget(k3);
+    core::mem::forget(k4);
+}
+
+#[cfg(test)]
+mod playback {
+    use super::*;
+    include!("/verif/.cache/playback/kind.rs");
+}
